@@ -10,14 +10,16 @@ def confirm_result(id_, i):
         cur = None
         for line in open('/tmp/mut/'+log):
             if line.startswith('==='): cur = line.strip()
-            if line.startswith('RESULT') and cur == f'=== {id_} mut{i}': res = line.strip()
+            if line.startswith('RESULT') and cur == f'=== {id_} mut{i}' and (('_r3' in log) == (rnd == 'r3')): res = line.strip()
     return res
 
 for arg in sys.argv[1:]:
     parts = arg.split(':')
     id_, i = parts[0], parts[1]
-    out = f'/tmp/mut/{id_}.out'
-    dst = f'/verif/seeded/{id_}-{i}'
+    rnd = parts[3] if len(parts) > 3 else 'out'
+    out = f'/tmp/mut/{id_}.{rnd}'
+    n = int(i) + (2 if rnd == 'r3' else 0) + (4 if rnd == 'r4' else 0)
+    dst = f'/verif/seeded/{id_}-{n}'
     os.makedirs(dst, exist_ok=True)
     shutil.copy(f'{out}/mut{i}.diff', f'{dst}/patch.diff')
     shutil.copy(f'{out}/mut{i}_demo_test.go', f'{dst}/demo_test.go')
@@ -34,10 +36,10 @@ for arg in sys.argv[1:]:
         "confirmed_in_scratch_worktree": confirm_result(id_, i),
         "confirmation_cmd": f"tools/confirm_mutation.sh /tmp/mut/{id_} /tmp/mut/{id_}.out {i}  (git apply, go build ./..., go test -vet=off -count=1 on every package except cmd/templ/lspcmd, demo with and without the change)",
         "demo_package_dir": parts[2] if len(parts) > 2 else "see description",
-        "check_cmd": f"git -C /repo apply /verif/seeded/{id_}-{i}/patch.diff && ./check {id_} --tier quick; git -C /repo checkout -- .",
+        "check_cmd": f"git -C /repo apply /verif/seeded/{id_}-{n}/patch.diff && ./check {id_} --tier quick; git -C /repo checkout -- .",
         "check_result": exitc,
         "caught_by_runs": runs,
         "first_failing_assertion": assertion[0] if assertion else None,
     }
     json.dump(meta, open(f'{dst}/meta.json', 'w'), indent=1)
-    print(id_, i, exitc, runs)
+    print(id_, n, exitc, runs)
